@@ -23,6 +23,11 @@ def run(ctx):
     progs = F.c07_family(ctx.tier, rnd)
     agg = run_family("C07attrs", progs, NAMES, dev=dev, invariants=INVS, perms=(0, 1) if quick else (0, 1, 2), timeout=3000)
     ctx.add_family(agg)
+    # the same start tags inside the surroundings the machine models (macro body, slot filler, named block, on-error, ...)
+    per = 6 if quick else 40
+    cprogs = F.in_contexts(progs, per, rnd)
+    agg = run_family("C07ctx", cprogs, NAMES + ["z", "macroname"], dev=dev, invariants=INVS, perms=(0,), timeout=3000)
+    ctx.add_family(agg)
     for f in ctx.known():
         ctx.witness(f)
     ctx.exhaustive = True
